@@ -2,7 +2,7 @@ from props import KERNEL, HARNESS, TRANSLATOR, CORR
 
 CONFIG = {
     "props_file": "props/C11.v",
-    "coq_targets": ["props/C11.vo", "model/BclCorr.vo", "proofs/BclDepthProofs.vo", "proofs/BclGenProofs.vo"],
+    "coq_targets": ["props/C11.vo", "model/BclCorr.vo", "proofs/BclDepthProofs.vo", "proofs/BclGenProofs.vo", "proofs/BclPanicSitesProofs.vo"],
     "runner": "run_bcl",
     "gens": ["gen_bcl"],
     "level": "proof",
